@@ -1248,6 +1248,35 @@ pub fn semantically_empty_family(pool: &Pool) -> Vec<T> {
             }
         }
     }
+    // three languages that overlap pairwise but have no common string ({x,y}, {x,z}, {y,z}), as unions of words and
+    // as "simple patterns" (ranges, optional letters): an intersection is empty although no two operands are disjoint
+    {
+        let words: Vec<(Vec<u32>, Vec<u32>, Vec<u32>)> = vec![
+            (vec![pool.a], vec![pool.b], vec![pool.a, pool.b]),
+            (vec![pool.a, pool.a], vec![pool.a], vec![pool.a, pool.a, pool.a]),
+            (vec![], vec![pool.a], vec![pool.b]),
+        ];
+        for (x, y, z) in &words {
+            let w = |u: &Vec<u32>| if u.is_empty() { T::Eps } else { T::Str(u.clone()) };
+            let l1 = T::Alt2(Box::new(w(x)), Box::new(w(y)));
+            let l2 = T::Alt2(Box::new(w(x)), Box::new(w(z)));
+            let l3 = T::Alt2(Box::new(w(y)), Box::new(w(z)));
+            let e = T::AndL(vec![l1.clone(), l2.clone(), l3.clone()]);
+            v.push(e.clone());
+            v.push(T::Cat2(b(&a), b(&e)));
+            v.push(T::And2(Box::new(T::And2(b(&l1), b(&l2))), b(&l3)));
+        }
+        // {a,b} & {a,ab} & {b,ab} with ranges and optional letters only
+        let p1 = T::Rng(pool.a, pool.b);
+        let p2 = T::Cat2(b(&a), Box::new(T::Opt(b(&bb))));
+        let p3 = T::Cat2(Box::new(T::Opt(b(&a))), b(&bb));
+        let p4 = T::Loop(Box::new(T::Rng(pool.a, pool.b)), 1, Some(2));
+        v.push(T::AndL(vec![p1.clone(), p2.clone(), p3.clone()]));
+        v.push(T::AndL(vec![p3.clone(), p1.clone(), p2.clone()]));
+        v.push(T::AndL(vec![p1.clone(), p2.clone(), p3.clone(), p4.clone()]));
+        v.push(T::Cat2(b(&bb), Box::new(T::AndL(vec![p1.clone(), p2.clone(), p3.clone()]))));
+        v.push(T::AndL(vec![p4, p2, p3]));    // not empty: {ab}
+    }
     // a nullable loop over a dead body denotes {""}: inside the body of a non-nullable loop / a power / a
     // concatenation it must not make the whole thing look dead
     for e in empties.iter().take(6) {
